@@ -10,11 +10,10 @@ open PromVerif.Generated.Expo PromVerif.Generated.Validation
 open PromVerif.Spec.LineGrammar hiding Str
 open PromVerif.Model.TextExpo (trailingOf addTrailing familyLines munge helpLine typeLine)
 
-/-- hypotheses on a family for the text format: the written family name is not an F2 name, the type is one of
-`METRIC_TYPES` (enforced by `Metric.__init__`), every sample is fine -/
+/-- preconditions on a family for the text format: the type is one of `METRIC_TYPES` (enforced by `Metric.__init__`),
+every sample value is a number token.  Nothing is assumed about any name, help text or label. -/
 def familyOKText (f : Family) : Bool :=
-  !f2Name metricNameRe (munge f.name f.typ).1 && PromVerif.Generated.Ctor.metricTypes.contains f.typ &&
-    f.samples.all sampleOKText
+  PromVerif.Generated.Ctor.metricTypes.contains f.typ && f.samples.all sampleOKText
 
 /-- the step of the `om_samples` dictionary loop -/
 def omStep (fam : Family) (d : List (Str × List Str)) (s : Sample) : List (Str × List Str) :=
@@ -272,25 +271,23 @@ theorem omInv_fold (fam : Family) (d : List (Str × List Str)) (ss : List Sample
 /-- under the hypotheses, every line the text exposition writes for a family is an LF-terminated line of the grammar -/
 theorem familyLines_ok (fam : Family) (h : familyOKText fam = true) :
     ∀ l ∈ familyLines fam, ∃ k, LineOf false k l := by
-  simp only [familyOKText, Bool.and_eq_true, Bool.not_eq_true', List.all_eq_true] at h
-  obtain ⟨⟨hn, ht⟩, hs⟩ := h
+  simp only [familyOKText, Bool.and_eq_true, List.all_eq_true] at h
+  obtain ⟨ht, hs⟩ := h
   have htyp := munge_type_ok fam.typ (by simpa using ht)
   intro l hl
   rw [familyLines_eq] at hl
   simp only [List.mem_append, List.mem_cons, List.mem_map, List.mem_flatMap, List.mem_filter,
     List.not_mem_nil, or_false] at hl
   rcases hl with ((rfl | rfl) | ⟨s, ⟨hs1, _⟩, rfl⟩) | ⟨e, he, hl⟩
-  · exact ⟨_, text_helpLine_ok _ _ _ hn⟩
-  · exact ⟨_, text_typeLine_ok _ _ hn (by rw [munge_snd]; exact htyp.1)⟩
+  · exact ⟨_, text_helpLine_ok _ _ _⟩
+  · exact ⟨_, text_typeLine_ok _ _ (by rw [munge_snd]; exact htyp.1)⟩
   · exact ⟨_, text_sampleLine_lineOf s (hs s hs1)⟩
   · have hinv := omInv_fold fam [] fam.samples (by intro e he; simp at he) (fun s hs => hs)
     have hin : e ∈ omFold fam [] fam.samples := (mem_sortByKey e _).mp he
     obtain ⟨hsuf, hlines⟩ := hinv e hin
-    have hsf := trailing_suffix_ok e.1 hsuf
-    have hname := f2Name_append metricNameRe fam.name e.1 hsf.1 hsf.2
     rcases hl with (rfl | rfl) | hl
-    · exact ⟨_, text_helpLine_ok _ _ _ hname⟩
-    · exact ⟨_, text_typeLine_ok _ _ hname (by decide)⟩
+    · exact ⟨_, text_helpLine_ok _ _ _⟩
+    · exact ⟨_, text_typeLine_ok _ _ (by decide)⟩
     · obtain ⟨s, hs1, rfl⟩ := hlines l hl
       exact ⟨_, text_sampleLine_lineOf s (hs s hs1)⟩
 
